@@ -18,7 +18,7 @@
    written inside one) is the hypothesis of c13_calls_are_finite_and_atomic,
    instantiated in Examples.v (gen_calls_finite_atomic). *)
 From Coq Require Import ZArith List Bool Permutation String.
-From Verif Require Import C13.Model C13.Proofs C13.Threads.
+From Verif Require Import C13.Model C13.Proofs C13.Threads C13.World.
 Import ListNotations.
 Open Scope Z_scope.
 
@@ -263,6 +263,61 @@ Theorem c13_reconf_returns_and_refines :
   (forall cfg ops, rrun cfg (map ROp ops) = (cfg, crun cfg ops)).
 Proof. exact (conj reconf_total reconf_refines). Qed.
 Print Assumptions c13_reconf_returns_and_refines.
+
+(* ---------------------------------------------------------------------- *)
+(* Several lysosomes in one program ("for any history ... configurations": the
+   `digesters` mapping is a constructor argument the CALLER owns, and a program
+   hands one such table to every lysosome it builds).  [wrun m ops] is the
+   world after a history [ops] over  WNew cfg (a further lysosome is built from
+   the caller's mapping, whose keys are [m], with an on_toxic of its own) |
+   WOn j o (any step of a reconfigured, interleaved history on the j-th
+   lysosome) | WAdv d (the one clock moves), from the empty world (Model.v,
+   Part 1e).  [ops] is arbitrary: any number of objects, built at any points of
+   the history, used in any order. *)
+
+(* Every lysosome of every world satisfies, for ITS OWN queue, counters,
+   recycling bin, DigestResults and on_toxic log, every statement above: the
+   queue bound, conservation (with calls in progress), exactly-once reporting
+   and accounting, and the toxic statements - in particular the on_toxic log of
+   a lysosome holds ids of sensitive items ingested into THAT lysosome only,
+   each at most once, and exactly once for each of its sensitive items that was
+   digested or emergency-processed. *)
+Theorem c13_world_every_object :
+  forall m ops cfg cs, In (cfg, cs) (w_objs (wrun m ops)) ->
+    (2 <= max_queue cfg -> Z.of_nat (List.length (queue (c_base cs))) <= max_queue cfg) /\
+    overlap_conservation_cs cfg cs /\ reported_once_cs cs /\ results_cs cfg cs /\ overlap_toxic_cs cfg cs.
+Proof. exact world_objects_proof. Qed.
+Print Assumptions c13_world_every_object.
+
+(* Objects do not share state:
+   (1) in a history that builds the objects [cfgs] and then does anything
+       (further objects included), object j ends in exactly the configuration
+       and state of the single-object history [wproj j ops] - the calls
+       addressed to it and the clock, in order - from the fresh object;
+   (2) the same from any world, for any object that exists in it;
+   (3) a call on one lysosome leaves every other lysosome as it was;
+   (4) a lysosome built in any world is the fresh object, and building it
+       leaves the others as they were. *)
+Theorem c13_world_objects_independent :
+  (forall m cfgs ops j cfg, nth_error cfgs j = Some cfg ->
+     nth_error (w_objs (wrun m (map WNew cfgs ++ ops))) j = Some (rrun cfg (wproj j ops))) /\
+  (forall ops w j p, nth_error (w_objs w) j = Some p ->
+     nth_error (w_objs (wrun_from w ops)) j = Some (rrun_from (fst p) (snd p) (wproj j ops))) /\
+  (forall w j o i, i <> j -> nth_error (w_objs (fst (wstep w (WOn j o)))) i = nth_error (w_objs w) i) /\
+  (forall w cfg,
+     nth_error (w_objs (fst (wstep w (WNew cfg)))) (List.length (w_objs w)) = Some (cfg, cinit) /\
+     forall j, (j < List.length (w_objs w))%nat ->
+       nth_error (w_objs (fst (wstep w (WNew cfg)))) j = nth_error (w_objs w) j).
+Proof. exact (conj world_independent (conj world_proj (conj world_frame world_new_fresh))). Qed.
+Print Assumptions c13_world_objects_independent.
+
+(* No step of any world history writes to the caller's digesters mapping, and
+   every step yields a world and an outcome. *)
+Theorem c13_world_mapping_untouched_and_total :
+  (forall ops w, w_map (wrun_from w ops) = w_map w) /\
+  (forall w o, exists w' r, wstep w o = (w', r)).
+Proof. exact (conj world_mapping_untouched wstep_total). Qed.
+Print Assumptions c13_world_mapping_untouched_and_total.
 
 (* ---------------------------------------------------------------------- *)
 (* Threads ("from any number of threads ... all interleavings").  Any number
